@@ -301,6 +301,26 @@ def _in_debug_assert(sp):
     return any(m.startswith("debug_assert") for m in (sp or {}).get("mac", []))
 
 
+FALLIBLE_SOURCES = ("checked_", "overflowing_", "calculate_layout", "do_alloc", "allocate", "capacity_to_buckets", "Layout", "new_uninitialized",
+                    "fallible_with_capacity", "try_", "with_capacity", "next_power_of_two", "resize_inner", "prepare_resize", "reserve_rehash")
+
+
+def _stated_unreachable(body, i, t):
+    """the panic is the expansion of `unreachable!` and no condition it is control dependent on derives from a computation that
+    can fail for a large request (size arithmetic, layout, allocation)"""
+    macs = list((t.get("sp") or {}).get("mac", [])) + list((t.get("sp_full") or {}).get("mac", []))
+    if not any(m == "unreachable" or m.endswith("::unreachable") or "unreachable_20" in m for m in macs):
+        return False
+    from cond import controlling_sources
+    for (b, s, S) in controlling_sources(body, i):
+        if S.indirect:
+            return False
+        for c in list(S.calls) + list(S.via):
+            if any(x in c for x in FALLIBLE_SOURCES):
+                return False
+    return True
+
+
 def r_fallible_nopanic(F, V):
     R = Result("R-FALLIBLE-NOPANIC", F.cfg)
     root = "raw::RawTable::try_reserve"
@@ -328,6 +348,9 @@ def r_fallible_nopanic(F, V):
             key = "%s|%s" % (p, cp.split("::")[-1])
             if _in_debug_assert(t.get("sp")) or _in_debug_assert(t.get("sp_full")):
                 R.inst(key, "panic site inside a debug_assert expansion", "ok", False, where(body, bb=i))
+                continue
+            if _stated_unreachable(body, i, t):
+                R.inst(key, "unreachable!() whose controlling conditions involve no size arithmetic, layout or allocation result: a stated invariant of the table (like a debug assertion), not a way of reporting a failed reservation", "ok", False, where(body, bb=i))
                 continue
             if cp in PANIC_METHODS and _guarded_unwrap(body, i, t):
                 R.inst(key, "unwrap() control-dependent on is_some()/is_ok() of the same value: cannot panic", "ok", True, where(body, bb=i))
